@@ -742,6 +742,11 @@ int __wrap_pthread_sigmask(int how, const sigset_t *set, sigset_t *old)
 
 /* ------------------------------------------------------------------ hook: markers + bp mask probe */
 
+#if VP_IS_BP
+static __thread volatile int ep_sync_first_armed;
+static int ep_want_burst;	/* spawner: bombard the episode thread with SIGUSR1 while it is in synchronize_rcu() */
+#endif
+
 static void c19_hook(int point, const void *ctx)
 {
 	struct thr *t = me;
@@ -764,6 +769,11 @@ static void c19_hook(int point, const void *ctx)
 		break;
 	case URCU_VP_BP_ADD_THREAD:
 	case URCU_VP_GP_PRE_FLIP:
+		if (point == URCU_VP_GP_PRE_FLIP && ep_sync_first_armed && !VP_LOAD(ep_want_burst)) {
+			VP_STORE(ep_want_burst, 1);
+			usleep(300);	/* signals blocked here: they stay pending until the library restores the mask */
+		}
+		/* fall through */
 	case URCU_VP_GP_POST_FLIP:
 	case URCU_VP_GP_REGISTRY_UNLOCKED: {
 		sigset_t cur;
@@ -1196,7 +1206,7 @@ static void *victim_main(void *arg)
 #if VP_IS_BP
 static long n_episodes;
 static int spawner_done;
-static uint64_t ep_first_lock_traps, ep_exit_traps, ep_handler_registered;
+static uint64_t ep_first_lock_traps, ep_exit_traps, ep_handler_registered, ep_sync_first, ep_sync_first_pending_seen;
 static size_t bp_baseline_used;
 
 static void *episode_thread(void *arg)
@@ -1210,6 +1220,23 @@ static void *episode_thread(void *arg)
 	uint64_t tr0 = t->traps_total;
 	if (vp_rand_n(&t->rng, 3) == 0)
 		vp_spin_cycles(vp_rand_n(&t->rng, 200000));	/* an asynchronous handler may register the thread first */
+	if (!rd_registered() && vp_rand_n(&t->rng, 4) == 0) {
+		/* Updater-only start: the thread's FIRST RCU operation is synchronize_rcu().  The spawner sends
+		 * SIGUSR1 all the time; urcu_bp_synchronize_rcu() runs with signals blocked, so the signal stays
+		 * pending and its handler (which takes a read-side section, i.e. registers this still unregistered
+		 * thread, which needs rcu_registry_lock) runs at the instant the library restores the mask.  That
+		 * must happen after the library has dropped its locks. */
+		uint64_t a0 = t->async_total;
+		int was_reg = rd_registered();
+		ep_sync_first_armed = 1;	/* the burst starts at a hook point inside the masked region */
+		do_sync(t, 0);
+		ep_sync_first_armed = 0;
+		VP_STORE(ep_want_burst, 0);
+		ep_sync_first++;
+		if (!was_reg && t->async_total > a0)
+			ep_sync_first_pending_seen++;
+		__atomic_store_n(&vp_self()->progress, vp_self()->progress + 1, __ATOMIC_RELAXED);
+	}
 	int reg_before = rd_registered();
 	/* the first rcu_read_lock() would be pre-empted by the handler of the very first trap (which
 	 * registers the thread): let a random number of traps pass so that the first handler section
@@ -1268,6 +1295,7 @@ static void *episode_thread(void *arg)
 	t->regions_done[R_BPREG]++;
 	set_alive(t, 0);
 	flush_pv(t);
+	VP_STORE(t->exited, 1);	/* the spawner stops its signal burst and joins */
 	if (opt_exit_step && opt_step) {
 		/* keep stepping through the thread-exit path: the key destructor unregisters the
 		 * thread; the shim stops the stepping at the library's mask restore */
@@ -1288,8 +1316,15 @@ static void *spawner_main(void *arg)
 		t->sig_ok = 0; t->alive = 0; t->hdepth = 0; t->stepping = 0; t->region = 0; t->exit_stepping = 0;
 		t->lib_crit = 0; t->masked_by_lib = 0; t->suspended = 0; t->step_k = 1;
 		uint64_t tr0 = t->traps_total;
+		VP_STORE(ep_want_burst, 0);
+		VP_STORE(t->exited, 0);
 		if (pthread_create(&t->tid, NULL, episode_thread, t))
 			break;
+		while (!VP_LOAD(t->exited)) {
+			if (VP_LOAD(ep_want_burst) && VP_LOAD(t->sig_ok))
+				pthread_kill(t->tid, SIGUSR1);
+			vp_spin_cycles(40000);
+		}
 		pthread_join(t->tid, NULL);
 		ep_exit_traps += t->traps_total - tr0;
 		flush_pv(t);
@@ -2050,6 +2085,8 @@ int main(int argc, char **argv)
 	vp_counter_add("bp_first_lock_handler_aimed_inside_urcu_bp_register", bpreg_in_fn_aimed);
 	vp_counter_add("bp_episode_total_traps", ep_exit_traps);
 	vp_counter_add("bp_episode_registered_by_async_handler", ep_handler_registered);
+	vp_counter_add("bp_episode_first_operation_is_synchronize_rcu", ep_sync_first);
+	vp_counter_add("bp_episode_sync_first_with_signals_during_the_call", ep_sync_first_pending_seen);
 #endif
 	if (opt_step && thr[0].traps_total == 0 && !vp_nviolations()) {
 		fprintf(stderr, "sigrd: single-stepping produced no trap\n");
